@@ -395,15 +395,20 @@ def report_bad(ctx, bad, sig_fn, desc_fn, replay_fn, confirm_fn, max_report=6):
 def confirm_by_cases(ctx, cmd, module, extra=None, cfg=None, extra_env=None, cfg_text=None):
     """Standard confirmation: re-run the driver on the single case of the replay object and re-judge."""
     def fn(rep):
-        with ctx._lock:
-            ctx._n += 1
-            k = ctx._n
-        cf = ctx.path("confirm_%d.ndjson" % k)
-        write_ndjson(cf, rep["cases"])
-        tr = cf + ".trace"
-        ctx.drive([cmd, "-cases", cf, "-out", tr, "-seed", ctx.seed] + (rep.get("extra") or extra or []))
-        n, bad, _ = ctx.tlc_trace(module, cfg or module, tr, label="confirm", extra_env=extra_env, cfg_text=cfg_text)
-        return bool(bad)
+        # A defect that depends on Go's map iteration order need not show on every run of the same case:
+        # the case is re-run a few times; it counts as reproduced only when some run is rejected again.
+        for attempt in range(4):
+            with ctx._lock:
+                ctx._n += 1
+                k = ctx._n
+            cf = ctx.path("confirm_%d.ndjson" % k)
+            write_ndjson(cf, rep["cases"])
+            tr = cf + ".trace"
+            ctx.drive([cmd, "-cases", cf, "-out", tr, "-seed", ctx.seed] + (rep.get("extra") or extra or []))
+            n, bad, _ = ctx.tlc_trace(module, cfg or module, tr, label="confirm", extra_env=extra_env, cfg_text=cfg_text)
+            if bad:
+                return True
+        return False
     return fn
 
 
